@@ -138,6 +138,13 @@ func (db *DB) Merge() error {
 				if err != nil {
 					return err
 				}
+				// 重写文件的 id 不允许触及未参与 merge 的文件, 否则加载时会覆盖或丢失数据
+				// 此时放弃本次 merge, 不写入完成标识, 临时目录将被忽略
+				if pos.Fid >= nonMergeFileId {
+					_ = hintFile.Close()
+					_ = closeMergeFiles()
+					return ErrMergeOutputOverflow
+				}
 				// merge的过程中顺便将构建索引所需信息写入 Hint 文件中, 用于后续重启时加速构建索引
 				if err := hintFile.WriteHintRecord(logRecord.Key, db.hintPos, pos); err != nil {
 					return err
